@@ -1237,6 +1237,11 @@ func (x *Exec) enterLoopHead(fr *Frame, st *State, b, prev *ssa.BasicBlock, lp *
 		unsupportedf("loop in pure evaluation of %s", fr.fn)
 	}
 	spec := x.eng.loopSpec(fr.fn, lp.ordinal)
+	if spec == nil && fr.depth > 0 && x.eng.unrollable(fr.fn) {
+		// inlined helper whose loops run over a slice of literal length at this call site:
+		// the loop is unrolled (execution simply continues; the revisit limit bounds it)
+		return true
+	}
 	fromInside := prev != nil && lp.body[prev]
 	envf := func() *Env { return x.loopEnv(fr, st) }
 	if fromInside {
